@@ -1,18 +1,28 @@
 package main
 
 // Sink side of C19: Writer programs run against a sink that fails at every
-// index of its Write/Seek calls (from k on, and only k), on seekable and
-// non-seekable sinks.  Oracle: some Writer call no later than Close returns an
-// error with errors.Is(err, injected).
+// index of its calls (Write and Seek; on seekable sinks also the Read and
+// ReadAt calls of read-backs), from k on and only k, on seekable and
+// non-seekable sinks.  The programs contain plain and large objects, small
+// streams, large streams (placeholders), object streams, objects put while a
+// stream is open, and - on seekable sinks - read-backs through the Writer:
+// Writer.Get of plain objects, of members of object streams and of streams,
+// and OpenStream with /Filter and /DecodeParms given as references that the
+// Writer resolves.
+//
+// Oracle: some Writer call no later than Close returns an error with
+// errors.Is(err, injected); if no call reports any error, the bytes produced
+// and the values read back must be those of the fault-free run.
 //
 // Tie to coq/C19/Sink.v: the same program is run once against a sink that
 // implements Flush (NewWriter then uses it in place of its bufio.Writer), which
 // exposes the operation sequence at the bufio boundary (buffered writes,
-// flushes, raw seeks and raw writes of Placeholder.Set); the model turns that
-// sequence into the sequence of sink calls a 4096-byte bufio.Writer makes and
-// into a verdict for every fault index; both are compared with the real run.
+// flushes, raw seeks, raw writes, raw reads); the model turns that sequence into
+// the sequence of sink calls a 4096-byte bufio.Writer makes and into a verdict
+// for every fault index; both are compared with the real run.
 
 import (
+	"bytes"
 	"errors"
 	"fmt"
 	"io"
@@ -25,14 +35,62 @@ import (
 
 var errSink = errors.New("injected sink fault")
 
+// mem is the storage shared by all sink variants.
+type mem struct {
+	buf []byte
+	pos int
+}
+
+func (m *mem) write(p []byte) {
+	end := m.pos + len(p)
+	if end > len(m.buf) {
+		m.buf = append(m.buf, make([]byte, end-len(m.buf))...)
+	}
+	copy(m.buf[m.pos:], p)
+	m.pos = end
+}
+
+func (m *mem) seek(off int64, wh int) int64 {
+	switch wh {
+	case io.SeekStart:
+		m.pos = int(off)
+	case io.SeekCurrent:
+		m.pos += int(off)
+	case io.SeekEnd:
+		m.pos = len(m.buf) + int(off)
+	}
+	return int64(m.pos)
+}
+
+func (m *mem) read(p []byte) (int, error) {
+	if m.pos >= len(m.buf) {
+		return 0, io.EOF
+	}
+	n := copy(p, m.buf[m.pos:])
+	m.pos += n
+	return n, nil
+}
+
+func (m *mem) readAt(p []byte, off int64) (int, error) {
+	if off < 0 || off >= int64(len(m.buf)) {
+		return 0, io.EOF
+	}
+	n := copy(p, m.buf[off:])
+	if n < len(p) {
+		return n, io.EOF
+	}
+	return n, nil
+}
+
+// fsink is the failing sink (Write only).
 type fsink struct {
-	pos, size int
-	n         int
-	failK     int
-	only      bool
-	fired     bool
-	calls     []string
-	record    bool
+	mem
+	n      int
+	failK  int
+	only   bool
+	fired  bool
+	calls  []string
+	record bool
 }
 
 func (s *fsink) tick(what string) error {
@@ -51,44 +109,49 @@ func (s *fsink) Write(p []byte) (int, error) {
 	if err := s.tick(fmt.Sprintf("W%d", len(p))); err != nil {
 		return 0, err
 	}
-	s.pos += len(p)
-	if s.pos > s.size {
-		s.size = s.pos
-	}
+	s.write(p)
 	return len(p), nil
 }
 
+// fseeksink adds Seek, Read and ReadAt (what an *os.File opened read-write offers).
 type fseeksink struct{ fsink }
 
 func (s *fseeksink) Seek(off int64, wh int) (int64, error) {
 	if err := s.tick("S"); err != nil {
 		return 0, err
 	}
-	switch wh {
-	case io.SeekStart:
-		s.pos = int(off)
-	case io.SeekCurrent:
-		s.pos += int(off)
-	case io.SeekEnd:
-		s.pos = s.size + int(off)
+	return s.seek(off, wh), nil
+}
+
+func (s *fseeksink) Read(p []byte) (int, error) {
+	if err := s.tick(fmt.Sprintf("R%d", len(p))); err != nil {
+		return 0, err
 	}
-	return int64(s.pos), nil
+	return s.read(p)
 }
 
-// recSink implements Write+Flush (and Seek in the seekable variant), so the
-// Writer uses it directly instead of wrapping the sink in a bufio.Writer.
+func (s *fseeksink) ReadAt(p []byte, off int64) (int, error) {
+	if err := s.tick(fmt.Sprintf("A%d", len(p))); err != nil {
+		return 0, err
+	}
+	return s.readAt(p, off)
+}
+
+// recSink implements Write+Flush (and Seek/Read/ReadAt in the seekable
+// variant), so the Writer uses it directly instead of wrapping the sink in a
+// bufio.Writer.
 type recSink struct {
-	ops       []string
-	pos, size int
+	mem
+	ops []string
 }
 
-func inPlaceholderSet() bool {
-	var pcs [24]uintptr
+func callerHas(suffix string) bool {
+	var pcs [32]uintptr
 	n := runtime.Callers(3, pcs[:])
 	frames := runtime.CallersFrames(pcs[:n])
 	for {
 		fr, more := frames.Next()
-		if strings.HasSuffix(fr.Function, "pdf.(*Placeholder).Set") {
+		if strings.HasSuffix(fr.Function, suffix) {
 			return true
 		}
 		if !more {
@@ -98,23 +161,23 @@ func inPlaceholderSet() bool {
 }
 
 func (s *recSink) Write(p []byte) (int, error) {
-	if inPlaceholderSet() {
+	if callerHas("pdf.(*Placeholder).Set") {
 		s.ops = append(s.ops, fmt.Sprintf("r%d", len(p)))
 	} else {
 		s.ops = append(s.ops, fmt.Sprintf("w%d", len(p)))
 	}
-	s.pos += len(p)
-	if s.pos > s.size {
-		s.size = s.pos
-	}
+	s.write(p)
 	return len(p), nil
 }
 
 func (s *recSink) Flush() error {
-	if inPlaceholderSet() {
-		s.ops = append(s.ops, "f")
-	} else {
-		s.ops = append(s.ops, "F")
+	switch {
+	case callerHas("pdf.(*Placeholder).Set"):
+		s.ops = append(s.ops, "f") // result dropped
+	case callerHas("pdf.(*Writer).get"):
+		s.ops = append(s.ops, "G") // result returned by Writer.Get
+	default:
+		s.ops = append(s.ops, "F") // result returned by Writer.Close
 	}
 	return nil
 }
@@ -123,20 +186,26 @@ type recSeekSink struct{ recSink }
 
 func (s *recSeekSink) Seek(off int64, wh int) (int64, error) {
 	s.ops = append(s.ops, "s")
-	switch wh {
-	case io.SeekStart:
-		s.pos = int(off)
-	case io.SeekCurrent:
-		s.pos += int(off)
-	case io.SeekEnd:
-		s.pos = s.size + int(off)
-	}
-	return int64(s.pos), nil
+	return s.seek(off, wh), nil
+}
+
+func (s *recSeekSink) Read(p []byte) (int, error) {
+	s.ops = append(s.ops, fmt.Sprintf("d%d", len(p)))
+	return s.read(p)
+}
+
+func (s *recSeekSink) ReadAt(p []byte, off int64) (int, error) {
+	s.ops = append(s.ops, fmt.Sprintf("a%d", len(p)))
+	return s.readAt(p, off)
 }
 
 // A wprog is a deterministic Writer program.
 type wstep struct {
-	kind  int // 0 Put small, 1 Put large, 2 small stream, 3 large stream, 4 WriteCompressed
+	// 0 Put small, 1 Put large, 2 small stream, 3 large stream, 4 WriteCompressed,
+	// 5 Get of a plain object, 6 Get of a member of an object stream, 7 OpenStream
+	// with /Filter and /DecodeParms given as references, 8 Put while a stream is
+	// open, 9 Get of a stream and decode of its body
+	kind  int
 	size  int
 	seed  uint64
 	chunk int
@@ -158,8 +227,10 @@ func (p wprog) String() string {
 }
 
 // runProg runs the program, continuing after errors, and returns every error
-// any Writer call returned, in order.
-func runProg(w io.Writer, p wprog) (errs []error) {
+// any Writer call returned, in order, and a rendering of everything read back.
+func runProg(w io.Writer, p wprog) (errs []error, readBack string) {
+	_, seekable := w.(io.ReadSeeker)
+	var rb strings.Builder
 	note := func(err error) {
 		if err != nil {
 			errs = append(errs, err)
@@ -172,13 +243,47 @@ func runProg(w io.Writer, p wprog) (errs []error) {
 	}
 	out, err := pdf.NewWriter(w, p.v, opt)
 	if err != nil {
-		return []error{err}
+		return []error{err}, ""
+	}
+	var plain, members, streams []pdf.Reference
+	pick := func(l []pdf.Reference, seed uint64) (pdf.Reference, bool) {
+		if len(l) == 0 {
+			return 0, false
+		}
+		return l[int(seed%uint64(len(l)))], true
+	}
+	get := func(ref pdf.Reference) pdf.Native {
+		o, err := out.Get(ref, true)
+		note(err)
+		if err != nil {
+			return nil
+		}
+		if stm, ok := o.(*pdf.Stream); ok {
+			fmt.Fprintf(&rb, "%v=stream%s;", ref, pdf.AsString(stm.Dict))
+		} else {
+			fmt.Fprintf(&rb, "%v=%s;", ref, pdf.AsString(o))
+		}
+		return o
+	}
+	writeBody := func(ws io.WriteCloser, s wstep) {
+		R := rand.New(rand.NewPCG(s.seed, 7))
+		body := make([]byte, s.size)
+		for i := range body {
+			body[i] = byte(R.IntN(256))
+		}
+		for len(body) > 0 {
+			n := min(len(body), max(s.chunk, 1))
+			_, err := ws.Write(body[:n])
+			note(err)
+			body = body[n:]
+		}
 	}
 	for _, s := range p.steps {
-		R := rand.New(rand.NewPCG(s.seed, 7))
 		switch s.kind {
 		case 0, 1:
-			note(out.Put(out.Alloc(), pdf.Dict{"A": pdf.String(strings.Repeat("x", s.size))}))
+			ref := out.Alloc()
+			note(out.Put(ref, pdf.Dict{"A": pdf.String(strings.Repeat("x", s.size))}))
+			plain = append(plain, ref)
 		case 2, 3:
 			ref := out.Alloc()
 			var fs []pdf.Filter
@@ -190,19 +295,66 @@ func runProg(w io.Writer, p wprog) (errs []error) {
 			if err != nil {
 				continue
 			}
-			body := make([]byte, s.size)
-			for i := range body {
-				body[i] = byte(R.IntN(256))
-			}
-			for len(body) > 0 {
-				n := min(len(body), s.chunk)
-				_, err = ws.Write(body[:n])
-				note(err)
-				body = body[n:]
-			}
+			writeBody(ws, s)
 			note(ws.Close())
+			streams = append(streams, ref)
 		case 4:
-			note(out.WriteCompressed([]pdf.Reference{out.Alloc(), out.Alloc()}, pdf.Integer(5), pdf.String(strings.Repeat("y", s.size))))
+			r1, r2 := out.Alloc(), out.Alloc()
+			note(out.WriteCompressed([]pdf.Reference{r1, r2}, pdf.Integer(5), pdf.String(strings.Repeat("y", s.size))))
+			members = append(members, r1, r2)
+		case 5:
+			if ref, ok := pick(plain, s.seed); ok && seekable {
+				get(ref)
+			}
+		case 6:
+			if ref, ok := pick(members, s.seed); ok && seekable {
+				get(ref)
+			}
+		case 7:
+			if !seekable {
+				continue
+			}
+			fref, pref := out.Alloc(), out.Alloc()
+			note(out.Put(fref, pdf.Array{pdf.Name("ASCIIHexDecode")}))
+			note(out.Put(pref, pdf.Array{nil}))
+			plain = append(plain, fref)
+			ref := out.Alloc()
+			ws, err := out.OpenStream(ref, pdf.Dict{"Filter": fref, "DecodeParms": pref})
+			note(err)
+			if err != nil {
+				continue
+			}
+			_, err = ws.Write([]byte(strings.Repeat("48656c6c6f", 1+s.size%300) + ">"))
+			note(err)
+			note(ws.Close())
+			streams = append(streams, ref)
+		case 8:
+			ref, late := out.Alloc(), out.Alloc()
+			ws, err := out.OpenStream(ref, pdf.Dict{"Late": late})
+			note(err)
+			if err != nil {
+				continue
+			}
+			note(out.Put(late, pdf.Dict{"PutWhileStreamOpen": pdf.Boolean(true)}))
+			writeBody(ws, s)
+			note(ws.Close())
+			streams = append(streams, ref)
+			plain = append(plain, late)
+		case 9:
+			if ref, ok := pick(streams, s.seed); ok && seekable {
+				if stm, ok := get(ref).(*pdf.Stream); ok {
+					rd, err := pdf.DecodeStream(out, nil, stm)
+					note(err)
+					if err == nil {
+						b, err := io.ReadAll(rd)
+						note(err)
+						note(rd.Close())
+						if err == nil {
+							fmt.Fprintf(&rb, "body=%x;", b)
+						}
+					}
+				}
+			}
 		}
 	}
 	pages := out.Alloc()
@@ -210,7 +362,7 @@ func runProg(w io.Writer, p wprog) (errs []error) {
 	out.GetMeta().Catalog.Pages = pages
 	out.GetMeta().Info.Title = "t"
 	note(out.Close())
-	return errs
+	return errs, rb.String()
 }
 
 func genProg(R *rand.Rand, i int) wprog {
@@ -219,9 +371,9 @@ func genProg(R *rand.Rand, i int) wprog {
 	if i%4 == 3 {
 		p.pw = "u"
 	}
-	n := 2 + R.IntN(5)
+	n := 3 + R.IntN(6)
 	for j := 0; j < n; j++ {
-		s := wstep{kind: R.IntN(5), seed: R.Uint64(), chunk: 1 + R.IntN(6000)}
+		s := wstep{kind: R.IntN(10), seed: R.Uint64(), chunk: 1 + R.IntN(6000)}
 		switch s.kind {
 		case 0:
 			s.size = 1 + R.IntN(200)
@@ -233,13 +385,30 @@ func genProg(R *rand.Rand, i int) wprog {
 			s.size = 1024 + R.IntN(20000)
 		case 4:
 			s.size = 1 + R.IntN(6000)
+		case 7:
+			s.size = R.IntN(1000)
+		case 8:
+			s.size = R.IntN(3000)
 		}
 		p.steps = append(p.steps, s)
 	}
-	if i < 2 {
-		// fixed seed corpus: the shape of the design-round probe
+	switch i {
+	case 0:
+		// fixed corpus: the shape of the design-round probe
 		p.steps = []wstep{{kind: 1, size: 7000, seed: 1, chunk: 9000}, {kind: 3, size: 9000, seed: 2, chunk: 100000},
 			{kind: 1, size: 7000, seed: 3, chunk: 9000}, {kind: 3, size: 27000, seed: 5, chunk: 4096}, {kind: 4, size: 3, seed: 6}}
+	case 1:
+		// fixed corpus: a read-back of a plain object between two writes (human
+		// readable 1.7: no object streams), then more output and Close
+		p.v, p.human, p.pw = pdf.V1_7, true, ""
+		p.steps = []wstep{{kind: 0, size: 20, seed: 1}, {kind: 1, size: 3000, seed: 2}, {kind: 5, seed: 0},
+			{kind: 1, size: 3000, seed: 3}, {kind: 0, size: 10, seed: 4}}
+	case 2:
+		// fixed corpus: every kind of read-back in one program
+		p.v, p.human, p.pw = pdf.V1_7, false, ""
+		p.steps = []wstep{{kind: 0, size: 30, seed: 1}, {kind: 4, size: 200, seed: 2}, {kind: 3, size: 3000, seed: 4, chunk: 700},
+			{kind: 6, seed: 1}, {kind: 7, size: 40, seed: 3}, {kind: 9, seed: 0}, {kind: 8, size: 1500, seed: 5, chunk: 500},
+			{kind: 5, seed: 2}, {kind: 9, seed: 1}, {kind: 1, size: 5000, seed: 6}}
 	}
 	return p
 }
@@ -258,11 +427,13 @@ func sinkSide(R *rand.Rand) {
 				return s, s
 			}
 			w, s := mk(0, false, true)
-			if errs := runProg(w, p); len(errs) > 0 {
-				panic(fmt.Sprintf("sink program %v fails without a fault: %v", p, errs[0]))
+			cleanErrs, cleanRB := runProg(w, p)
+			if len(cleanErrs) > 0 {
+				panic(fmt.Sprintf("sink program %v fails without a fault: %v", p, cleanErrs[0]))
 			}
 			total := s.n
 			calls := s.calls
+			cleanBytes := s.buf
 			id := fmt.Sprintf("w%d.%v", i, seekable)
 			deterministic := p.pw == ""
 			var ops []string
@@ -284,7 +455,8 @@ func sinkSide(R *rand.Rand) {
 				for k := 1; k <= total; k++ {
 					w, s := mk(k, only, false)
 					var errs []error
-					got := guarded(watchdog, func() (string, error) { errs = runProg(w, p); return "", nil })
+					var rb string
+					got := guarded(watchdog, func() (string, error) { errs, rb = runProg(w, p); return "", nil })
 					if got.skipped {
 						return
 					}
@@ -304,14 +476,27 @@ func sinkSide(R *rand.Rand) {
 						cls, letter = "panic", 'p'
 					case !surfaced && len(errs) > 0:
 						cls, letter = "error-without-cause", 'o'
+					case !surfaced && ((deterministic && !bytes.Equal(s.buf, cleanBytes)) || rb != cleanRB):
+						cls, letter = "swallowed-different-output", 'n'
+					case !surfaced && (what == "R" || what == "A"):
+						// a failed read of a read-back that nobody needed (the scanner's
+						// read-ahead): same values read back, same bytes produced
+						cls, letter = "read-fault-same-result", 's'
 					case !surfaced:
 						cls, letter = "swallowed", 'n'
 					}
 					e.Count(s.fired, fmt.Sprintf("sink|%d|%v|%d|%v", i, seekable, k, only), fmt.Sprintf("sink/%s/%s", what, cls))
-					letters = append(letters, letter)
-					if letter != 'y' {
+					if what == "W" || what == "S" {
+						// the model's fault index counts Write and Seek calls only
+						letters = append(letters, letter)
+					}
+					if letter != 'y' && letter != 's' {
 						c := map[string]any{"program": p.String(), "seekable": seekable, "k": k, "sink_calls_in_clean_run": total,
-							"fault": fmName(only), "failing_sink_call": calls[k-1], "errors_returned": len(errs)}
+							"fault": fmName(only), "failing_sink_call": calls[k-1], "errors_returned": len(errs),
+							"output_equals_fault_free_output": bytes.Equal(s.buf, cleanBytes), "read_back_equals_fault_free": rb == cleanRB}
+						if k >= 2 {
+							c["sink_calls_before"] = strings.Join(calls[max(0, k-6):k-1], " ")
+						}
 						if len(errs) > 0 {
 							c["first_error"] = errs[0].Error()
 						}
